@@ -110,6 +110,25 @@ def unfold(terms, defs):
     return out
 
 
+def case_split(obl):
+    """a skolemised range goal  lo <= k and k < hi  =>  body(k)  becomes two obligations: k < hi-1 (the cells an
+    iteration leaves alone) and k == hi-1 (the cell it adds) - exhaustive for integers, each much cheaper than both
+    together"""
+    from .engine import Obl
+    g = obl.goal
+    if not (z3.is_expr(g) and z3.is_implies(g)):
+        return [obl]
+    ante = g.arg(0)
+    if not (z3.is_and(ante) and ante.num_args() == 2 and z3.is_lt(ante.arg(1)) and ante.arg(1).arg(0).sort() == z3.IntSort()
+            and z3.is_const(ante.arg(1).arg(0)) and str(ante.arg(1).arg(0)).startswith('sk_')):
+        return [obl]
+    k, hi = ante.arg(1).arg(0), ante.arg(1).arg(1)
+    out = []
+    for tag, extra in (('frame', k < hi - 1), ('new', k == hi - 1)):
+        out.append(Obl(obl.name + '/' + tag, list(obl.hyp), z3.Implies(z3.And(ante, extra), g.arg(1)), obl.kind, dict(obl.meta)))
+    return out
+
+
 def instantiate(obl, defs=()):
     goal = skolemise(obl.goal) if z3.is_expr(obl.goal) else obl.goal
     hyp = list(obl.hyp)
